@@ -246,4 +246,16 @@ MUTANTS = [
     ("c09-rolling-code-not-refreshed", "C09", "patches/r5-C09.diff", "fire", "C09-ROLL"),
     ("c13-writer-open-without-truncate", "C13", "patches/r5-C13.diff", "fire", "C13-OPEN"),
     ("c13-writer-open-with-truncate", "C13", [(R, 1, "            let file = File::create(path).context(\"Failed to create archive for writing\")?;", "            let file = std::fs::OpenOptions::new().read(true).write(true).create(true).truncate(true).open(path).context(\"Failed to create archive for writing\")?;")], "quiet", ""),
+    # ---------------------------------------------------------------- round 6
+    ("c02-min-match-clamped-in-coder", "C02", "patches/r6-C02.diff", "fire", "C02-MML"),
+    ("c09-nrun-swallows-non-acgt", "C09", "patches/r6-C09.diff", "fire", "C09-NRUN"),
+    ("c09-nrun-iterator-style-correct", "C09", "patches/r6-C09-twin.diff", "quiet", ""),
+    ("c12-scratch-buffer-wrong-guard", "C12", "patches/r6-C12.diff", "fire", "C12-ZBUF"),
+    ("c12-scratch-buffer-bound-guard", "C12", "patches/r6-C12-twin.diff", "quiet", ""),
+    ("c04-scratch-buffer-bound-guard", "C04", "patches/r6-C12-twin.diff", "quiet", ""),
+    ("c13-random-access-moves-cursor", "C13", "patches/r6-C13.diff", "fire", "C13-CUR"),
+    ("c16-decompress-guessed-capacity", "C16", "patches/r6-C16.diff", "fire", "C16-PACK"),
+    ("c17-file-prefix-merges-inputs", "C17", "patches/r6-C17.diff", "fire", "C17-R9"),
+    ("c18-part-range-check-by-sum", "C18", "patches/r6-C18.diff", "fire", "C18-FILE"),
+    ("c19-single-file-scanned-whole", "C19", "patches/r6-C19.diff", "fire", "C19-G7"),
 ]
